@@ -13,6 +13,7 @@ from .. import genfile
 from ..ref import smf
 
 ID = 'C12'
+ANCHORS = ['mido.midifiles.tracks']
 LEVEL = 'exploration'
 RULE = ('seeded track lists: 0-6 tracks x 0-40 messages of all classes (channel, system, '
         'sysex, known and unknown meta), deltas from {0 (ties), 1, 127, 128, 10**6} or exact '
